@@ -358,7 +358,7 @@ pub fn check(ctx: &mut Ctx) -> i32 {
         return fail(ctx, &acc, &f.case, &f.fail);
     }
     if !ctx.quick() {
-        if let Some(code) = crate::props::fuzzrun::campaign(ctx, &acc, "c10_exec", 400_000, 12) {
+        if let Some(code) = crate::props::fuzzrun::campaign(ctx, &acc, "c10_exec", 600_000, 14) {
             if code != EXIT_OK {
                 write_evidence(ctx, &acc, RULE, ASSUME, 1);
                 return code;
